@@ -146,6 +146,23 @@ def generate(rng, tier):
         if rng.random() < 0.3:
             s, sb = -s, -sb
         yield Case("f.basecmp", [hx(s), dec(ea), dec(pa), dec(P10[pa]), hx(sb), dec(eb)])
+    # ---- invariant digits <= precision + 1 after single operations and chains (incl. operands that are
+    #      themselves p+1-digit results: addsub / subsub / submul)
+    for _ in range(600 if quick else 20000):
+        base = rng.choice([2, 10, 10, 16])
+        p = rng.choice([1, 2, 3, 4, 5, 8, 12, 20])
+
+        def opnd():
+            nd = rng.randrange(1, p + 1)
+            s = rng.choice([rng.randrange(base ** (nd - 1), base ** nd), base ** nd - 1, base ** (nd - 1)])
+            if rng.random() < 0.5:
+                s = -s
+            return s, rng.choice([0, 0, 1, -1, 2, -2, p, p + 1, -p, -p - 1, rng.randrange(-8, 8)])
+        sa, ea = opnd(); sb, eb = opnd()
+        op = rng.choice(["add", "sub", "sub", "mul", "div", "div", "sqr", "cubic", "sqrt", "addsub", "submul", "subsub"])
+        if op == "sqrt":
+            sa = abs(sa)
+        yield Case("f.fits", [base, op, hx(sa), dec(ea), dec(p), hx(sb), dec(eb), dec(p)])
     # ---- the same float / rational by several routes
     for _ in range(200 if quick else 6000):
         nd = rng.choice([1, 2, 3, 9, 19, 20, 38, 39, 40, 60])
@@ -220,23 +237,35 @@ REFINED = [
     "cmp_same_len, cmp_in_place, Ord for TypedReprRef (Small < Large shortcut), Ord for IBig",
     "PartialEq / Hash for Repr via as_sign_slice (the hash feed: sign, length prefix, words)",
     "canonical form is unique: Canon a, Canon b, equal values => a = b (hence == / hash / cmp Equal agree)",
+    "histories: every register produced by any finite program over {const, clone, neg, abs, not, sqr, pow, shl, shr, add, sub, "
+    "mul, div, rem, and, or, xor, ones} is canonical and holds the Int-level value; ==/cmp/hash of any two of them follow the value",
     "producers of canonical form: from_buffer, ofNat, ones, & | ^ and_not, add_one/sub_one, shl, shr, clear_high_bits, "
     "split_bits, IBig sign tables, Not, IBig shl",
     "float: repr_cmp_same_base (all 6 cases, any digit estimator that is an upper bound), Repr::normalize, PartialEq for FBig",
     "rational: repr_cmp, repr_eq (bit-length filters + cross multiplication), structural RBig ==",
 ]
 FRONTIER = [
-    "producers outside the bit/shift layer (ring arithmetic, parsing, byte decoding, clone_from, conversions) are covered by the "
-    "multi-route correspondence through the repr_info hook, their Canon theorems live in the owning properties (C01/C02/C07/C17)",
-    "float producers: only `normalize` is refined here; that every FBig operation keeps digits <= precision is C03/C08 "
-    "(one producer violates it: known finding)",
+    "history theorem covers: constructors/decoders entering through from_buffer/from_dword (const), clone, neg, abs, !, sqr, pow, "
+    "<<, >>, + - * / %, & | ^, ones (per-op Canon facts imported from Proofs/Int/{Repr,Ops,Pow,Div,Bits}); NOT in the instruction "
+    "set (covered by the multi-route correspondence through the repr_info hook and by their owning properties): the text/byte "
+    "decoders as word-level producers (C07 proves them at value level), raw from_buffer/clone_from on the ledger model (C17), "
+    "gcd/roots (C12), Euclidean division forms, conversions from primitives/floats (C06)",
+    "float producers: the invariant the comparison needs is digits <= precision+1 (theorem float_cmp); it is proved for the "
+    "modelled Context operations repr_round/with_precision, add, sub, mul, sqr, cubic, repr_div (float_results_fit, using "
+    "builder-float's Closing lemmas) and checked on the real code by `f.fits` (single ops and chains); NOT modelled: exp/ln/powi, "
+    "parsing, conversions from primitives, Context::div's own pre-shrink, with_base (C08; fix 02e179b)",
     "AbsOrd/AbsEq and cross-type comparisons are C14",
 ]
 EXPLANATION = ("Theorems: integers — cmp of canonical values = order of values; a value has exactly one canonical representation, so "
                "== (slice compare), the recorded hash feed and cmp==Equal coincide with value equality; 20 producers keep the canonical "
-               "form; the 2-word heap value of the old ones(128) is the proved counterexample without Canon. Floats — repr_cmp_same_base "
-               "= order of signif*B^exp with infinities at the ends under `digits <= precision`, for every upper-bound digit estimator; "
-               "proved counterexample when the invariant is broken (with_base result); normalize canonical; == <=> cmp Equal. Rationals — "
+               "form; history theorem: every value produced by an arbitrary finite program of ring/division/bit/shift operations, "
+               "constructors and clones is canonical and carries the Int-level value, so ==/cmp/hash follow the value whichever "
+               "operations produced the operands; the 2-word heap value of the old ones(128) is the proved counterexample without "
+               "Canon. Floats — repr_cmp_same_base "
+               "= order of signif*B^exp with infinities at the ends under `digits <= precision+1` (sharp: counterexample at p+2 digits), "
+               "for every upper-bound digit estimator; every modelled arithmetic producer returns <= p+1 digits for operands of any "
+               "length (so chains keep the invariant), the spare digit does occur (1230-1=1229 exact at p=3); normalize canonical; "
+               "== <=> cmp Equal. Rationals — "
                "repr_cmp / repr_eq = cross-multiplication order/equality for non-reduced fractions; RBig structural == on reduced ones.")
 ASSUMPTIONS = ["derive(Hash)/slice hashing of core feed (isize discriminant, usize length prefix, word bytes) as observed on this host",
                "the f32 estimate `digits_ub` of the real code is an upper bound of the digit count (the model takes the estimator as a "
@@ -247,19 +276,20 @@ THEOREMS = ["Dashu.Props.C05." + n for n in [
     "ubig_cmp", "ibig_cmp", "canonical_form_unique", "eq_iff_value_eq", "cmp_equal_iff_eq", "hash_follows_value", "cmp_swap",
     "cmp_wrong_without_canon", "producers_canonical", "signed_producers_canonical", "float_cmp",
     "float_cmp_needs_precision_bound", "float_normalize", "float_eq_iff_cmp_equal", "ratio_cmp", "relaxed_eq", "rbig_eq",
-    "ratio_cmp_equal_iff_eq"]]
+    "ratio_cmp_equal_iff_eq", "history_canonical", "history_values", "history_eq_cmp_hash",
+    "float_results_fit", "float_cmp_of_results", "float_spare_digit_occurs"]]
 
 LEVEL_TEXT = ("Machine-checked Lean 4 theorems that (integers, every word size and length) comparison of canonical values is the order "
               "of the values and the canonical representation of a value is unique — so ==, the sequence fed to a Hasher and "
               "cmp==Equal all coincide with value equality — with the bit/shift-layer producers proved to return canonical form and a "
               "proved counterexample for the non-canonical value the old ones(128) built; (floats) repr_cmp_same_base equals the order of "
-              "the exact values for all precisions/rounding modes given the FBig invariant digits <= precision, with a proved "
-              "counterexample outside it, normalize is canonical and == <=> cmp Equal; (rationals) repr_cmp/repr_eq equal cross-"
+              "the exact values for all precisions/rounding modes given digits <= precision+1 — which the modelled arithmetic producers "
+              "are proved to guarantee, also along chains — with a proved counterexample at precision+2, normalize is canonical and == <=> cmp Equal; (rationals) repr_cmp/repr_eq equal cross-"
               "multiplication order/equality on non-reduced fractions and RBig's structural == is value equality on reduced ones. The "
               "model is tied to /repo on every run by differential execution; integer values are additionally built through 34 (UBig) / "
               "22 (IBig) independent routes whose results must be canonical (repr_info hook), pairwise ==, cmp Equal and hash-identical.")
 LEVEL_NOTE = ("Trusted: Lean kernel; axioms propext/Classical.choice/Quot.sound; correspondence harness + generators (sampling) for the "
               "tie model<->code and for the claim that *every* producer yields canonical form (proved here only for the producers listed "
-              "in refined_kernels); the digit-estimate hypothesis. One known finding: floats leaving with_base/convert_base may carry more "
-              "digits than their precision and are then mis-ordered (patch proposed).")
+              "in refined_kernels); the digit-estimate hypothesis. Repaired during this work: floats leaving with_base/convert_base "
+              "carried more digits than their precision and were mis-ordered (fix 02e179b).")
 TECHNIQUE = "Lean 4 theorems (uniqueness of the canonical form; comparison = order of values) + differential correspondence incl. multi-route histories through the repr_info hook"
